@@ -232,7 +232,8 @@ namespace c15
         };
         ob::State *st = ss->allocState();
         uint64_t h = 1469598103934665603ULL;
-        long ok = 0, fail = 0, faults = 0, surface = 0, measures = 0, cutByBounds = 0;
+        long ok = 0, fail = 0, faults = 0, surface = 0, measures = 0, cutByBounds = 0, probed = 0;
+        double minBoundSoFar = HUGE_VAL;
         const auto &ops = plan["ops"].items();
         for (size_t oi = 0; oi < ops.size() && res.vclass.empty(); oi++)
         {
@@ -247,6 +248,54 @@ namespace c15
                 rngfault::arm(op["fault"]);
                 bool r = hasLower ? sampler->sampleUniform(st, ob::Cost(lower), ob::Cost(c)) : sampler->sampleUniform(st, ob::Cost(c));
                 faults += rngfault::disarm();
+                // "all of the states that can still help": the rejection sampler keeps a candidate iff heuristicSolnCost(candidate)
+                // is below c (and planners prune with the same function), so a state whose cost through ANY start / goal pair
+                // is below c must be reported below c, and one whose cost through every pair is above c must not.
+                // Probe states come from the harness stream (near the segment of a random start / goal pair), not from the library.
+                {
+                    sim::Rng pg(sim::mix((uint64_t)plan.geti("ompl_seed", 1), (uint64_t)(oi + 1)));
+                    ob::ScopedState<> u(ss);
+                    // (the direct sampler drops the spheroid of a start / goal pair for good once a bound is below the pair's
+                    // focal distance - bounds only shrink while a planner runs - so its answers are judged only while the
+                    // bounds of this history have not grown)
+                    const bool judgeProbes = !(sk == "direct" || sk == "ordered-direct") || c <= minBoundSoFar;
+                    minBoundSoFar = std::min(minBoundSoFar, c);
+                    for (int t = 0; t < 3 && judgeProbes && res.vclass.empty(); t++)
+                    {
+                        const auto &a = S[(size_t)pg.below(S.size())];
+                        const auto &g2 = G[(size_t)pg.below(G.size())];
+                        double lam = pg.unit();
+                        std::vector<double> v((size_t)n);
+                        for (int i = 0; i < n; i++)
+                        {
+                            double x = a[(size_t)i] + lam * (g2[(size_t)i] - a[(size_t)i]) + (pg.unit() - 0.5) * 0.2 * dmin;
+                            v[(size_t)i] = std::min(half, std::max(-half, x));
+                        }
+                        if (spn == "se2")
+                            v.push_back(0.3);
+                        if (spn == "se3")
+                        {
+                            v.push_back(0);
+                            v.push_back(0);
+                            v.push_back(0);
+                            v.push_back(1);
+                        }
+                        ss->copyFromReals(u.get(), v);
+                        double indep = HUGE_VAL;
+                        for (size_t i = 0; i < S.size(); i++)
+                            for (size_t j = 0; j < G.size(); j++)
+                                indep = std::min(indep, ss->distance(keep[i].get(), u.get()) + ss->distance(u.get(), keep[S.size() + j].get()));
+                        double lib = sampler->heuristicSolnCost(u.get()).value();
+                        probed++;
+                        if (indep < c * (1 - 1e-9) && !(lib < c))
+                            res.violate(P + ".improving-state-excluded" + sfx,
+                                        when + fmt(": a state whose cost through the best start / goal pair is %.12g (below the bound) has heuristicSolnCost %.12g: it can never be sampled or kept",
+                                                   indep, lib));
+                        else if (indep > c * (1 + 1e-9) && lib < c)
+                            res.violate(P + ".non-improving-state-admitted" + sfx,
+                                        when + fmt(": a state whose cost through every start / goal pair is at least %.12g (above the bound) has heuristicSolnCost %.12g", indep, lib));
+                    }
+                }
                 if (!r)
                 {
                     fail++;  // retry exhaustion is legal and claims nothing
@@ -271,6 +320,7 @@ namespace c15
             {
                 if (!(sk == "direct") || S.size() != 1 || G.size() != 1 || !base->hasInformedMeasure())
                     continue;
+                minBoundSoFar = std::min(minBoundSoFar, c);
                 double m = base->getInformedMeasure(ob::Cost(c));
                 // analytic: unit n-ball measure x (c/2) x (sqrt(c^2 - d^2)/2)^(n-1), times the measure of the uninformed part,
                 // capped by the measure of the space
@@ -384,6 +434,7 @@ namespace c15
                   (fail ? "/exhausted" : "");
         res.faults["F5-extreme-draw-burst(H1)"] += faults;
         res.probes["informed-sample-success"] += ok;
+        res.probes["heuristic-judged-at-harness-probe-states"] += probed;
         res.probes["informed-sample-exhausted(false)"] += fail;
         res.probes["spheroid-cut-by-bounds"] += cutByBounds;
         res.probes["measure-judged"] += measures;
